@@ -225,7 +225,7 @@ def kinds_case(case):
 
 
 def shards(tier):
-    return [{'name': 'update-kinds', 'kind': 'kinds'}] + [{'name': 'walks-%d' % i, 'kind': 'hyp', 'examples': 150 if tier == 'quick' else 3000, 'hypothesis': True,
+    return [{'name': 'update-kinds', 'kind': 'kinds'}] + [{'name': 'walks-%d' % i, 'kind': 'hyp', 'examples': 150 if tier == 'quick' else 8000, 'hypothesis': True,
              'steps': 40 if tier == 'quick' else 80} for i in range(8 if tier == 'quick' else 16)]
 
 
